@@ -486,6 +486,11 @@ class _Norm(ast.NodeTransformer):
                 return o.operand
             if isinstance(o, ast.Compare) and len(o.ops) == 1 and type(o.ops[0]) in _NEG:
                 return self._orient(ast.copy_location(ast.Compare(left=o.left, ops=[_NEG[type(o.ops[0])]()], comparators=o.comparators), n))
+            # De Morgan, when every part is a comparison the negation folds into: not (a is None and n <= 2)  ->  a is not None or 2 < n
+            if isinstance(o, ast.BoolOp) and all((isinstance(v, ast.Compare) and len(v.ops) == 1 and type(v.ops[0]) in _NEG) or
+                                                 (isinstance(v, ast.UnaryOp) and isinstance(v.op, ast.Not)) for v in o.values):
+                parts = [self.visit_UnaryOp(ast.copy_location(ast.UnaryOp(op=ast.Not(), operand=v), v)) for v in o.values]
+                return ast.copy_location(ast.BoolOp(op=ast.Or() if isinstance(o.op, ast.And) else ast.And(), values=parts), n)
         return n
 
     def visit_Compare(self, n):
@@ -1153,6 +1158,51 @@ def canonicalise(rel, tree, stats=None):
     return touched
 
 
+def ifexp_names(fn):
+    """plain locals of a function that some statement binds with a conditional expression (x = a if c else b)"""
+    return sorted(set(st.targets[0].id for st in ast.walk(fn) if isinstance(st, ast.Assign) and len(st.targets) == 1 and
+                      isinstance(st.targets[0], ast.Name) and isinstance(st.value, ast.IfExp)))
+
+
+def align_ifexp(fn, ref_names):
+    """N46 (towards the reference spelling): a local the reference binds under if/else and this tree binds with a conditional
+    expression is split into the if/else; one the reference binds with a conditional expression and this tree under a two-armed
+    if (one plain assignment to it in each arm, nothing else) is merged.  Returns the number of statements changed."""
+    cur = set(ifexp_names(fn))
+    ref = set(ref_names)
+    n = [0]
+
+    def rewrite(stmts):
+        out = []
+        for st in stmts:
+            for fld in ('body', 'orelse', 'finalbody'):
+                b = getattr(st, fld, None)
+                if isinstance(b, list) and b and isinstance(b[0], ast.stmt) and not isinstance(st, (ast.FunctionDef, ast.ClassDef)):
+                    setattr(st, fld, rewrite(b))
+            for h in getattr(st, 'handlers', []) or []:
+                h.body = rewrite(h.body)
+            if isinstance(st, ast.Assign) and len(st.targets) == 1 and isinstance(st.targets[0], ast.Name) and isinstance(st.value, ast.IfExp) and \
+                    st.targets[0].id in cur - ref:
+                x = st.targets[0].id
+                mk = lambda v: [ast.copy_location(ast.Assign(targets=[ast.Name(id=x, ctx=ast.Store())], value=v), st)]
+                new = ast.If(test=st.value.test, body=rewrite(mk(st.value.body)), orelse=rewrite(mk(st.value.orelse)))
+                out.append(ast.fix_missing_locations(ast.copy_location(new, st)))
+                n[0] += 1
+                continue
+            if isinstance(st, ast.If) and len(st.body) == 1 and len(st.orelse) == 1 and \
+                    all(isinstance(a, ast.Assign) and len(a.targets) == 1 and isinstance(a.targets[0], ast.Name) for a in (st.body[0], st.orelse[0])) and \
+                    st.body[0].targets[0].id == st.orelse[0].targets[0].id and st.body[0].targets[0].id in ref - cur:
+                x = st.body[0].targets[0].id
+                new = ast.Assign(targets=[ast.Name(id=x, ctx=ast.Store())], value=ast.IfExp(test=st.test, body=st.body[0].value, orelse=st.orelse[0].value))
+                out.append(ast.fix_missing_locations(ast.copy_location(new, st)))
+                n[0] += 1
+                continue
+            out.append(st)
+        return out
+    fn.body = rewrite(fn.body)
+    return n[0]
+
+
 def count_loop_functions(tree):
     """outermost functions written with a `for .. in itertools.count(..)` loop"""
     return sorted(qual for qual, fn in outer_functions(tree)
@@ -1191,6 +1241,7 @@ def build_reference(sources):
         fns['__globals__'] = sorted(set(t.id for st in tree.body if isinstance(st, (ast.Assign, ast.AugAssign, ast.AnnAssign))
                                         for t in ast.walk(st) if isinstance(t, ast.Name) and isinstance(t.ctx, ast.Store)))
         fns['__countloops__'] = counted
+        fns['__ifexp__'] = dict((qual, ifexp_names(fn)) for qual, fn in outer_functions(tree) if ifexp_names(fn))
         fns['__classattrs__'] = sorted(set('%s.%s' % (c.name, t.id) for c in ast.walk(tree) if isinstance(c, ast.ClassDef) for st in c.body
                                            if isinstance(st, (ast.Assign, ast.AnnAssign)) for t in ast.walk(st)
                                            if isinstance(t, ast.Name) and isinstance(t.ctx, ast.Store)))
